@@ -149,7 +149,7 @@ func (f *Frame) modelCallFull(key string, sig *types.Signature, vals []Val, args
 		return r, true
 	case "iface:context.Context.Done":
 		vc.used["A-STD"] = true
-		return vc.freshRef("donechan", resT(0)), true
+		return f.newRef("donechan", resT(0)), true
 	case "context.Background", "context.TODO":
 		vc.declare("ctx_background", SIface)
 		vc.assume(sx("distinct", sx("i_typ", "ctx_background"), "0"))
@@ -158,10 +158,10 @@ func (f *Frame) modelCallFull(key string, sig *types.Signature, vals []Val, args
 		vc.used["A-STD"] = true
 		ctx := vc.fresh("childctx", SIface)
 		vc.assume(sx("distinct", sx("i_typ", ctx), "0"))
-		vc.declareFun("ctx_parent", []Sort{SIface}, SIface)
+
 		vc.assume(eq(sx("ctx_parent", ctx), vals[0].t))
-		cancel := vc.freshRef("cancelfn", resT(1))
-		vc.declareFun("cancel_of", []Sort{SIface}, SInt)
+		cancel := f.newRef("cancelfn", resT(1))
+
 		vc.assume(eq(sx("cancel_of", ctx), cancel.t))
 		// fresh contexts are distinct from every context created earlier in this function
 		for _, o := range vc.ctxs {
@@ -171,7 +171,7 @@ func (f *Frame) modelCallFull(key string, sig *types.Signature, vals []Val, args
 		return Tuple{Val{ctx, SIface, resT(0)}, cancel}, true
 	case "time.AfterFunc":
 		vc.used["A-STD"] = true
-		return vc.freshRef("timer", resT(0)), true
+		return f.newRef("timer", resT(0)), true
 	case "(*time.Timer).Stop":
 		vc.used["A-STD"] = true
 		return vc.freshVal("stopped", types.Typ[types.Bool]), true
